@@ -172,14 +172,14 @@ Definition hex_ok (n : N) : bool :=
   | Some m => m =? n
   | None => false
   end.
-Lemma hex_ok_all : forallb hex_ok (map N.of_nat (seq 0 65536)) = true.
+Lemma hex_ok_all : forallb hex_ok (map N.of_nat (seq 0 (N.to_nat 65536))) = true.
 Proof. vm_compute. reflexivity. Qed.
 
 Lemma unhex4_hex4 n : n < 65536 ->
   unhex4 (hexd (n / 4096)) (hexd ((n / 256) mod 16)) (hexd ((n / 16) mod 16)) (hexd (n mod 16)) = Some n.
 Proof.
   intros Hn. pose proof hex_ok_all as H. rewrite forallb_forall in H.
-  assert (Hin : In n (map N.of_nat (seq 0 65536))).
+  assert (Hin : In n (map N.of_nat (seq 0 (N.to_nat 65536)))).
   { rewrite <- (N2Nat.id n). apply in_map. apply in_seq. lia. }
   specialize (H _ Hin). unfold hex_ok in H.
   destruct (unhex4 _ _ _ _) as [m|]; [|discriminate]. apply N.eqb_eq in H. now subst.
